@@ -18,6 +18,7 @@ import (
 	"io"
 	"os"
 	"reflect"
+	"runtime/debug"
 	"sort"
 	"strconv"
 	"strings"
@@ -33,7 +34,11 @@ type Out struct {
 	Census map[string]int64
 }
 
-func NewOut() *Out { return &Out{W: os.Stdout, Census: map[string]int64{}} }
+func NewOut() *Out {
+	// an instance that recurses without end dies at 64 MiB of stack instead of 1 GiB
+	debug.SetMaxStack(64 << 20)
+	return &Out{W: os.Stdout, Census: map[string]int64{}}
+}
 
 func oneLine(s string) string {
 	s = strings.ReplaceAll(s, "\t", " ")
